@@ -1152,8 +1152,14 @@ def summary(M, x, probs):
         "\n".join(p[1] for p in probs[:6]), M.text, val_repr(x_to_json(x), 900), problem_class(M.spec, probs[0][0]) or "none")
 
 
+def module_flags(M):
+    """every third module is built with -fwide-types (INTEGER_t identifiers take another path through the object table)"""
+    import zlib
+    return ("-fcompound-names", "-fwide-types") if zlib.crc32(M.text.encode()) % 3 == 0 else drv.DEFAULT_FLAGS
+
+
 def build_module(M):
-    return drv.ModuleBuild(M.text, driver_src="c18_driver.c")
+    return drv.ModuleBuild(M.text, flags=module_flags(M), driver_src="c18_driver.c")
 
 
 class Session(pipeline.Session):
